@@ -59,13 +59,22 @@ inductive FieldKind
   | prim (tag : Nat)
   | wrap (tyName : String) (ty : TypeId)
   | ref (c : ClassId)
+  | refs (cs : List ClassId)   -- positional Array of several Structure item types: Array(items=[A, B])
   deriving DecidableEq, Repr
+
+/-- the Structure classes a field kind refers to -/
+def kindRefs : FieldKind → List ClassId
+  | .ref c => [c]
+  | .refs cs => cs
+  | _ => []
 
 structure FieldSpec where
   name : String
   kind : FieldKind
   hasDefault : Bool
   serKey : String      -- key under `_serialization_mapper` (= name when unmapped)
+  camelKey : String    -- that key under `camel_case_convert=True`
+  camelName : String   -- the bare field name under `camel_case_convert=True`
   fastOk : Bool        -- `create_serializer` can handle the field
   trustedOk : Bool     -- field is in the trusted-deserialization whitelist
   schemaOk : Bool      -- `convert_to_schema` can map the field (it raises for implicit wrappers)
@@ -77,10 +86,11 @@ inductive Parent
   | omit (c : ClassId) (names : List String)   -- C.omit(...) / Omit[C, ...]
   | pick (c : ClassId) (names : List String)   -- C.pick(...) / Pick[C, ...]
   | partialOf (c : ClassId)                    -- Partial[C]
+  | allRequired (c : ClassId)                  -- AllFieldsRequired[C]
   deriving DecidableEq, Repr
 
 def Parent.cid : Parent → ClassId
-  | .inherit c => c | .omit c _ => c | .pick c _ => c | .partialOf c => c
+  | .inherit c => c | .omit c _ => c | .pick c _ => c | .partialOf c => c | .allRequired c => c
 
 structure ClassSrc where
   name : String
@@ -108,7 +118,7 @@ structure Entry where
   createdFast : Bool                 -- `cls.__dict__['_created_fast_serializer']`
   deriving DecidableEq, Repr
 
-inductive CKey | id (c : ClassId) | name (s : String)
+inductive CKey | id (c : ClassId) (camel : Bool) | name (s : String) (camel : Bool)
   deriving DecidableEq, Repr
 inductive WKey | ty (n : String) (t : TypeId) | name (n : String)
   deriving DecidableEq, Repr
@@ -129,11 +139,13 @@ def World.initial : World := ⟨[], [], [], [], 0, Flags.initial⟩
 def wkey (cfg : Config) (n : String) (t : TypeId) : WKey :=
   if cfg.wrapperByName then .name n else .ty n t
 
-def mkey (cfg : Config) (c : ClassId) (e : Entry) : CKey :=
-  if cfg.mapperByName then .name e.core.src.name else .id c
+/-- key of `aggregated_mapper_by_class`: (class, "", camel_case_convert) -/
+def mkey (cfg : Config) (c : ClassId) (e : Entry) (camel : Bool) : CKey :=
+  if cfg.mapperByName then .name e.core.src.name (!cfg.mapperDropsCamel && camel)
+  else .id c (!cfg.mapperDropsCamel && camel)
 
 def skey (cfg : Config) (c : ClassId) (e : Entry) : CKey :=
-  if cfg.simplicityByName then .name e.core.src.name else .id c
+  if cfg.simplicityByName then .name e.core.src.name false else .id c false
 
 /-! ### definition -/
 
@@ -164,7 +176,8 @@ def ownRequired (fs : List FieldSpec) : List String :=
   (fs.filter fun f => !f.hasDefault).map (·.name)
 
 /-- derived classes do not copy serialization mappers -/
-def unmapped (fs : List FieldSpec) : List FieldSpec := fs.map fun f => { f with serKey := f.name }
+def unmapped (fs : List FieldSpec) : List FieldSpec :=
+  fs.map fun f => { f with serKey := f.name, camelKey := f.camelName }
 
 /-- what a definition reads of its parent class: how it derives from it, the parent's
     definition-time core and the parent's LIVE `_required` list -/
@@ -188,6 +201,8 @@ def inheritInfo (parent : Option PInfo) (own : List FieldSpec) : List FieldSpec 
         (fun n => !hasDefaultIn (unmapped (pc.fields.filter fun f => ns.contains f.name) ++ own) n) ++ ownRequired own)
   | some (.partialOf _, pc, _) =>
     (unmapped pc.fields ++ own, ownRequired own)
+  | some (.allRequired _, pc, _) =>     -- every field without a default; the source's `_required` is not read
+    (unmapped pc.fields ++ own, ownRequired pc.fields ++ ownRequired own)
 
 /-- `getattr(cls, "_additionalProperties")` of the new class: its own setting, else what it inherits -/
 def addPropsAttrOf (own : Option Bool) (parent : Option PInfo) : Option Bool :=
@@ -258,12 +273,14 @@ inductive Arg
   | prim (tag : Nat) (valid : Bool)   -- a value for a field with that tag, valid or not
   | inst (ty : TypeId)                -- an instance of a non-typedpy user class
   | struct (c : ClassId)              -- an instance of a Structure class
+  | structs (cs : List ClassId)       -- a list of instances of these Structure classes, in order
   deriving DecidableEq, Repr
 
 def argOk (f : FieldSpec) : Arg → Bool
   | .prim tag valid => (match f.kind with | .prim t => t == tag && valid | _ => false)
   | .inst ty => (match f.kind with | .wrap _ t => t == ty | _ => false)
   | .struct c => (match f.kind with | .ref r => r == c | _ => false)
+  | .structs cs => (match f.kind with | .refs rs => rs == cs | _ => false)
 
 /-! ### what a class does: its behaviour, read from the world -/
 
@@ -276,17 +293,20 @@ structure Behaviour where
   compact : Bool
   failFast : Bool
   serMapper : List (String × String)  -- key mapping used by serialize / schema / create_serializer
+  serMapperCamel : List (String × String)  -- key mapping used by serialize(…, camel_case_convert=True)
   fastKeys : Option (List String)     -- keys emitted by `x.serialize()` of a FastSerializable class
   trusted : Bool                      -- trusted deserialization shortcut taken
   schemaRequired : List String        -- "required" emitted by structure_to_schema
   deriving DecidableEq, Repr
 
-def mapperOf (e : Entry) : List (String × String) := e.core.fields.map fun f => (f.name, f.serKey)
+/-- `aggregate_serialization_mappers(cls, None, camel_case_convert)` computed afresh -/
+def mapperOf (e : Entry) (camel : Bool) : List (String × String) :=
+  e.core.fields.map fun f => (f.name, if camel then f.camelKey else f.serKey)
 
-def serMapper (cfg : Config) (w : World) (c : ClassId) (e : Entry) : List (String × String) :=
-  match alookup (mkey cfg c e) w.mapperCache with
+def serMapper (cfg : Config) (w : World) (c : ClassId) (e : Entry) (camel : Bool) : List (String × String) :=
+  match alookup (mkey cfg c e camel) w.mapperCache with
   | some m => m
-  | none => mapperOf e
+  | none => mapperOf e camel
 
 def trustedOf (cfg : Config) (w : World) (c : ClassId) (e : Entry) : Bool :=
   match alookup (skey cfg c e) w.simplicityCache with
@@ -297,7 +317,7 @@ def mappedKey (m : List (String × String)) (n : String) : String := (alookup n 
 
 /-- keys a serializer created now would emit -/
 def fastKeysNow (cfg : Config) (w : World) (c : ClassId) (e : Entry) : List String :=
-  (fnames e.core.fields).map (mappedKey (serMapper cfg w c e))
+  (fnames e.core.fields).map (mappedKey (serMapper cfg w c e false))
 
 /-- `_generate_schema_for_fields_internal` on the list object held in `cls._required`, field by field:
     a required key is replaced by its mapped key; then the field is converted (an unmappable field
@@ -329,10 +349,11 @@ def behaviourOf (cfg : Config) (w : World) (c : ClassId) (e : Entry) : Behaviour
   extras := extrasOf w e
   compact := w.flags.compact
   failFast := w.flags.failFast
-  serMapper := serMapper cfg w c e
+  serMapper := serMapper cfg w c e false
+  serMapperCamel := serMapper cfg w c e true
   fastKeys := if e.core.src.fast then some (e.serializer.getD (fastKeysNow cfg w c e)) else none
   trusted := trustedOf cfg w c e
-  schemaRequired := schemaRequiredOf (serMapper cfg w c e) (extrasOf w e) e.core.fields e.required
+  schemaRequired := schemaRequiredOf (serMapper cfg w c e false) (extrasOf w e) e.core.fields e.required
 
 def view (cfg : Config) (w : World) (c : ClassId) : Option Behaviour :=
   (alookup c w.classes).map (behaviourOf cfg w c)
@@ -350,7 +371,7 @@ def acceptsKw (b : Behaviour) (kw : List (String × Arg)) : Bool :=
 inductive WorldOp
   | define (c : ClassId) (src : ClassSrc)
   | construct (c : ClassId) (kw : List (String × Arg))
-  | serialize (c : ClassId) (kw : List (String × Arg))   -- construct an instance from `kw`, serialize it
+  | serialize (c : ClassId) (kw : List (String × Arg)) (camel : Bool)   -- construct an instance from `kw`, serialize it with `camel_case_convert=camel`
   | deserialize (c : ClassId) (kw : List (String × Arg))
   | toSchema (c : ClassId)
   | createSerializer (c : ClassId)
@@ -370,9 +391,7 @@ def bodyW (cfg : Config) (w : World) (src : ClassSrc) : World :=
 
 /-- every class a field refers to exists (otherwise the source is not a program: NameError) -/
 def refsDefined (classes : List (ClassId × Entry)) (fs : List FieldSpec) : Bool :=
-  fs.all fun f => match f.kind with
-    | .ref r => (alookup r classes).isSome
-    | _ => true
+  fs.all fun f => (kindRefs f.kind).all fun r => (alookup r classes).isSome
 
 def defineW (cfg : Config) (w : World) (c : ClassId) (src : ClassSrc) : World × Obs :=
   match alookup c w.classes with
@@ -396,10 +415,10 @@ def installTarget (cfg : Config) (c : ClassId) (e : Entry) : ClassId :=
   else c
 
 /-- `aggregate_serialization_mappers(cls)`: fill the cache on a miss -/
-def fillMapper (cfg : Config) (w : World) (c : ClassId) (e : Entry) : World :=
-  match alookup (mkey cfg c e) w.mapperCache with
+def fillMapper (cfg : Config) (w : World) (c : ClassId) (e : Entry) (camel : Bool := false) : World :=
+  match alookup (mkey cfg c e camel) w.mapperCache with
   | some _ => w
-  | none => { w with mapperCache := (mkey cfg c e, mapperOf e) :: w.mapperCache }
+  | none => { w with mapperCache := (mkey cfg c e camel, mapperOf e camel) :: w.mapperCache }
 
 def fillSimplicity (cfg : Config) (w : World) (c : ClassId) (e : Entry) : World :=
   match alookup (skey cfg c e) w.simplicityCache with
@@ -436,7 +455,7 @@ def constructW (cfg : Config) (w : World) (c : ClassId) (e : Entry) (kw : List (
 /-- `structure_to_schema(cls)`: fills the mapper cache and (per the table) writes `_required` in place -/
 def schemaW (cfg : Config) (w : World) (c : ClassId) (e : Entry) : World × Obs :=
   let w1 := fillMapper cfg w c e
-  let req := schemaRequiredOf (serMapper cfg w1 c e) (extrasOf w e) e.core.fields e.required
+  let req := schemaRequiredOf (serMapper cfg w1 c e false) (extrasOf w e) e.core.fields e.required
   if cfg.schemaWritesRequired && req != e.required then
     (setEntry w1 c { e with required := req }, { Obs.ok with keys := req, wrote := true })
   else (w1, { Obs.ok with keys := req })
@@ -454,10 +473,14 @@ def stepW (cfg : Config) (w : World) : WorldOp → World × Obs
       (constructW cfg w c e kw, { Obs.ok with accepted := constructOk cfg w c e kw })
   | .trustedDeserialize c kw => withClass w c fun e =>
       (constructW cfg (fillSimplicity cfg w c e) c e kw, { Obs.ok with accepted := constructOk cfg w c e kw })
-  | .serialize c kw => withClass w c fun e =>
-      (if constructOk cfg w c e kw then fillMapper cfg (constructW cfg w c e kw) c e else constructW cfg w c e kw,
+  | .serialize c kw camel => withClass w c fun e =>
+      -- a FastSerializable class (its serializer exists once an instance does) is serialized by
+      -- `x.serialize()`: no mapper resolution, `camel_case_convert` ignored
+      (if constructOk cfg w c e kw && !e.core.src.fast then fillMapper cfg (constructW cfg w c e kw) c e camel
+       else constructW cfg w c e kw,
        { Obs.ok with accepted := constructOk cfg w c e kw,
-                     keys := (fnames e.core.fields).map (mappedKey (serMapper cfg w c e)) })
+                     keys := if e.core.src.fast then e.serializer.getD (fastKeysNow cfg w c e)
+                             else (fnames e.core.fields).map (mappedKey (serMapper cfg w c e camel)) })
   | .createSerializer c => withClass w c fun e =>
       (installW cfg w c e, { Obs.ok with accepted := fastAble e, keys := fastKeysNow cfg w c e })
   | .toSchema c => withClass w c fun e => schemaW cfg w c e
@@ -477,7 +500,7 @@ def obsW (cfg : Config) : World → List WorldOp → List Obs
 /-- classes a definition reads: its parent and the classes its fields refer to -/
 def ClassSrc.deps (s : ClassSrc) : List ClassId :=
   (match s.parent with | some p => [p.cid] | none => []) ++
-  s.fields.filterMap fun f => match f.kind with | .ref c => some c | _ => none
+  s.fields.flatMap fun f => kindRefs f.kind
 
 /-- keep the definitions of the classes in `T` and every global-default toggle; drop every use of
     any class and every other definition -/
@@ -511,7 +534,8 @@ def NoClashW (W : List (String × TypeId)) : Prop := ∀ p ∈ W, ∀ q ∈ W, p
 
 instance (W : List (String × TypeId)) : Decidable (NoClashW W) := by unfold NoClashW; infer_instance
 
-def hasRef (e : Entry) : Bool := e.core.fields.any fun f => match f.kind with | .ref _ => true | _ => false
+def hasRef (e : Entry) : Bool :=
+  e.core.fields.any fun f => match f.kind with | .ref _ => true | .refs _ => true | _ => false
 
 /-- a step is quiet when `structure_to_schema` does not change `cls._required` (and, because the
     model does not follow ClassReference fields into the referenced classes' `_required`, is not
@@ -521,7 +545,7 @@ def quietStep (cfg : Config) (w : World) : WorldOp → Bool
   | .toSchema c => !cfg.schemaWritesRequired ||
     (match alookup c w.classes with
      | none => true
-     | some e => (schemaRequiredOf (serMapper cfg (fillMapper cfg w c e) c e) (extrasOf w e) e.core.fields e.required
+     | some e => (schemaRequiredOf (serMapper cfg (fillMapper cfg w c e) c e false) (extrasOf w e) e.core.fields e.required
                     == e.required) && !hasRef e)
   | _ => true
 
